@@ -34,6 +34,8 @@ type Emu struct {
 	G         *gcsemu.GcsEmu
 	Mux       *http.ServeMux
 	Wrap      func(gcsemu.Store) gcsemu.Store
+	// Hook, when set, sees every request/response pair served by Do.
+	Hook func(req *Req, resp *Resp)
 }
 
 func NewEmu(store, dir string) (*Emu, error) { return NewEmuWrap(store, dir, nil) }
@@ -95,6 +97,9 @@ func (e *Emu) Do(r *Req) (resp *Resp) { return e.DoCtx(context.Background(), r) 
 
 func (e *Emu) DoCtx(ctx context.Context, r *Req) (resp *Resp) {
 	resp = &Resp{}
+	if e.Hook != nil {
+		defer func() { e.Hook(r, resp) }()
+	}
 	req, err := http.NewRequestWithContext(ctx, r.Method, "http://"+Host+r.Path, bytes.NewReader(r.Body.B()))
 	if err != nil {
 		// not representable as an HTTP request: the harness's fault, never a finding
